@@ -59,6 +59,8 @@ DST_FOLLOW = {
     "empty": [("md0",), ("eof", 0, "NO_ERROR", 1), ("tick",), ("tick",), ("ackfin",), ("tick",)],
     "nomd": [("fd", 0, 2, 0), ("tick",), ("eof", 4, "NO_ERROR", 1), ("tick",), ("md",), ("tick",), ("expire",), ("fd", 0, 2, 0), ("fd", 2, 2, 0), ("tick",), ("tick",)],
     "mdonly": [("mdonly",), ("tick",), ("tick",), ("ackfin",), ("tick",)],
+    "cancel": [("md",), ("fd", 2, 2, 0), ("cancel",), ("tick",), ("tick",), ("ackfin",), ("tick",)],
+    "silence": [("md",), ("fd", 0, 2, 0), ("eof", 4, "NO_ERROR", 1), ("tick",), ("expire",), ("expire",), ("expire",), ("expire",), ("tick",)],
 }
 
 
@@ -123,6 +125,9 @@ class HistDst(DstWorld):
                 if d is not None:
                     clock.advance(ent.h, d)
                 o, msgs = ent.step(None)
+            elif e[0] == "cancel":
+                o, msgs, ret = ent.call(ent.h.cancel_request, self.cur_tid(st))
+                o["ret"] = ret
             else:
                 o, msgs = ent.step(self.follow_pdu(st, e, mode))
             if msgs:
@@ -178,6 +183,8 @@ SRC_FOLLOW = {
     "empty": ("empty", [("tick",)] * 3 + [("ackeof",), ("fin",), ("tick",), ("tick",)]),
     "mdonly": ("mdonly", [("tick",)] * 3 + [("fin",), ("tick",)]),
     "nak": ("valid", [("tick",)] * 3 + [("nak", ((0, 0), (0, 2)))] + [("tick",)] * 4 + [("ackeof",), ("fin",), ("tick",)]),
+    "cancel": ("valid", [("tick",)] * 2 + [("cancel",)] + [("tick",), ("ackeof",), ("fin",), ("tick",)]),
+    "silence": ("valid", [("tick",)] * 4 + [("expire",)] * 3 + [("tick",)]),
 }
 
 
@@ -224,6 +231,15 @@ class HistSrc(SrcWorld):
         for e in script:
             if e[0] == "tick":
                 o, msgs = ent.step(None)
+            elif e[0] == "expire":
+                d = clock.next_expiry(ent.h)
+                if d is not None:
+                    clock.advance(ent.h, d)
+                o, msgs = ent.step(None)
+            elif e[0] == "cancel":
+                tid = ent.h.transaction_id
+                o, msgs, ret = ent.call(ent.h.cancel_request, tid) if tid is not None else ({}, [], None)
+                o["ret"] = ret
             else:
                 ee = e if e[0] != "fin" else ("fin", "NO_ERROR", "DATA_COMPLETE", "FILE_RETAINED")
                 o, msgs = ent.step(self.make_pdu(st, ee))
@@ -389,6 +405,9 @@ def run(tier: str) -> int:
                    "sibling_scripts": {k: len(v) for k, v in SIB_SCRIPTS.items()}}
     kw = dict(check_cycles=False, validate_stride=1999, validate_terminals=3, n_samples=1, max_states=2_000_000)
     for w in worlds:
+        if run_.found_something():
+            run_.skip(w)
+            continue
         run_.add(explore(w, procs=NPROC, **kw))
     for cks in ("crc32",):
         run_.add(explore(Sibling(cks=cks), procs=1, **kw))
